@@ -176,14 +176,26 @@ def r10c(fb, rep):
         rep.anchor_lost(R, "make_let")
         return
     ok = False
+    build = set()
     for i, j, place, rv, line in mk.assigns():
         if rv[0] == "agg" and rv[1][0] == "adt" and rv[1][1] == "gluon_vm::core::Named" and rv[1][2] == "Expr":
             if ("arg", 5) in flow.sources(mk, rv[2][0]):
                 ok = True
+                build.add(i)
     if ok:
         rep.ok(R, "make_let binds Named::Expr(<the field's own expression>)")
     else:
         rep.violation(R, "make-let-expr", "make_let no longer binds the field's expression", mk.where())
+        return
+    # ... on every path: a return that bypasses the binding drops the field's expression (and the calls in it)
+    lets = set(flow.blocks_constructing(mk, "gluon_vm::core::Expr", "Let"))
+    skip = mk.reachable(0, avoid_blocks=build) & set(mk.return_blocks())
+    skip_let = mk.reachable(0, avoid_blocks=lets) & set(mk.return_blocks()) if lets else set(mk.return_blocks())
+    if skip or skip_let:
+        rep.violation(R, "make-let-skips-field", "make_let can return without binding the field's expression in a new Expr::Let: a field the "
+                      "pattern does not name would be dropped together with the calls in its initialiser", mk.where(), path=sorted(skip | skip_let))
+    else:
+        rep.ok(R, "make_let: every return passes the construction of Expr::Let(Named::Expr(field expr), next)")
 
 
 def run(fb, rep, tier, cfg):
